@@ -311,6 +311,8 @@ def build_scn(T, probes):
     if nd['kind'] in ('leaf', 'wrapped', 'conduit'):
       a = a.reshape(-1)
     nd['P'].append(reg.data('%s.P1' % nd['path'], a))
+    # the caller's own working buffer (not caller DATA the library must leave alone: the caller itself overwrites it between calls)
+    nd['buf'] = np.zeros_like(nd['S'][0])
   return reg
 
 
@@ -359,6 +361,11 @@ def call(nd, op):
       utils.power_matrix.cache_clear()
       return ('v', 'evicted')
     S, P = nd['S'][op.get('si', 0)], nd['P'][op.get('pi', 0)]
+    if op.get('buf'):
+      # the flow is handed over in ONE array object that the caller updates in place between calls (s[:] = ..., s -= lr*grad):
+      # the call is still "at S"; a device that kept a reference to (a view of) an earlier argument now sees it change
+      nd['buf'][...] = S
+      S = nd['buf']
     if k == 'cost':
       return norm(d.cost(S, P))
     if k == 'deriv':
@@ -597,6 +604,8 @@ def gen_ops(rng, T, max_len):
       if nsolve > 2:
         k = 'deriv'
     ops.append({'node': rng.randrange(nn), 'k': k, 'si': rng.randrange(2), 'pi': rng.randrange(2), 'ci': rng.randrange(8)})
+    if rng.random() < 0.4:
+      ops[-1]['buf'] = True
   return ops
 
 
